@@ -29,7 +29,7 @@ Entries == {"AndersonCD.solve", "AndersonCD.path", "MultiTaskBCD.path", "MultiTa
 Alphas == 1..5
 WarmShapes == {"none", "zero", "random", "bigsupp", "intercept_only", "reuse"}
 Orders == {"dec", "inc", "shuffled"}
-Inits == {"none", "zero", "random", "intercept_only"}
+Inits == {"none", "zero", "random", "intercept_only", "task_sparse"}   \* task_sparse: rows that are zero for the first task only
 \* new_labels / new_rows: a warm_start estimator refitted on other data starts from the previous coefficients
 Changes == {"alpha_down", "alpha_up", "same", "toggle_intercept", "alpha_down_far", "alpha_to_null", "new_labels",
             "new_rows"}
